@@ -2,6 +2,7 @@ package props
 
 import (
 	"fmt"
+	applog "github.com/godaddy/asherah/go/appencryption/pkg/log"
 	"runtime/debug"
 	"sort"
 	"strings"
@@ -189,6 +190,11 @@ func (r *refCache) victim() string {
 	return ""
 }
 
+// renderLogger formats every debug line (running the String methods of what is logged) and drops it.
+type renderLogger struct{}
+
+func (renderLogger) Debugf(format string, v ...interface{}) { _ = fmt.Sprintf(format, v...) }
+
 func runC15(t *simrt.Tape, o Opts) Outcome {
 	swept := t.Choose(2, "mode.sweep") == 1
 	pi := t.Choose(len(c15Policies), "policy")
@@ -206,6 +212,12 @@ func runC15(t *simrt.Tape, o Opts) Outcome {
 	long := !swept && c15Caps[ci] >= 99 && t.Choose(6, "long-history") == 1
 	if long {
 		n = 24*c15Caps[ci] + t.Choose(200, "len.long")
+	}
+	// the application may have wired up the SDK's debug log (log.SetLogger): the cache then renders its
+	// debug lines, from its own goroutines too
+	if t.Choose(4, "debug-log") == 1 {
+		applog.SetLogger(renderLogger{})
+		defer applog.SetLogger(nil)
 	}
 	if !swept && !long && t.Choose(4, "concurrent-clients") == 1 {
 		return runC15Concurrent(t, o, pi, ci, syn, expOn)
